@@ -270,6 +270,7 @@ class C03(Check):
         self.of, self.FlowTable, self.TableEntry, self.SoftwareSwitch, self.pkt = of, FlowTable, TableEntry, SoftwareSwitch, pkt
         self.IPAddr, self.EthAddr = IPAddr, EthAddr
         self._corpus = None; self._byte_frames = None
+        self.zero_mac_eq_none = bool(EthAddr(b"\0" * 6) == None)      # noqa: E711 -- the address class's own comparison is what is probed
         self.anchors = self.compute_anchors()
         self.variant = self.detect_variant()
 
@@ -359,7 +360,8 @@ class C03(Check):
 
     def extra_evidence(self):
         return {"code_variant": dict(zip(["arpLow8", "prereqExact", "exactSig", "tosDscp"], self.variant)), "code_variant_decided_by": self.variant_source,
-                "strict_test_both_ways": self.strict_both_ways, "rarp_parsed_as_arp_feeds_from_packet": self.rarp_as_arp}
+                "strict_test_both_ways": self.strict_both_ways, "rarp_parsed_as_arp_feeds_from_packet": self.rarp_as_arp,
+                "zero_mac_equals_none_in_address_class": self.zero_mac_eq_none}
 
     def compute_anchors(self):
         import ast, os
@@ -660,6 +662,18 @@ class C03(Check):
                     ps.append({"a": unpack_rec(bytes.fromhex(pr["a"]["w"])), "b": unpack_rec(bytes.fromhex(pr["b"]["w"])), "wire": True})
                 else:
                     ps.append({"a": self.raw_of(self.real_match(pr["a"])), "b": self.raw_of(self.real_match(pr["b"])), "wire": False})
+                if self.zero_mac_eq_none:
+                    # pox.lib.addresses: EthAddr(None) is the all-zero address, so EthAddr("00:00:00:00:00:00") == None.  In the LENIENT test
+                    # a.matches_with_wildcards(b, consider_other_wildcards=False) a specified all-zero MAC in `a` therefore passes against a
+                    # wildcarded (None) MAC in `b` — as if `a` had wildcarded the field.  The switch never evaluates that: entry_for_packet
+                    # passes a packet's match, whose MACs are always assigned, and the strict form rejects the pair on the wildcard bits
+                    # first.  The lenient test on two flow matches is a correspondence-only observable here; the quirk (probed in setup,
+                    # gone as soon as the address class stops equating zero with None) is mirrored on the model's INPUT, not in the model.
+                    a, b = ps[-1]["a"], ps[-1]["b"]
+                    a2 = list(a)
+                    for f in (DL_SRC, DL_DST):
+                        if not wild(a, f) and a[f] == 0 and wild(b, f): a2[W] |= 1 << BIT[f]
+                    if a2 != a: ps[-1]["a2"] = a2
             return {"op": "subsume", "pairs": ps}
         if k == "table":
             frames = []
@@ -1079,7 +1093,7 @@ class C03(Check):
         if self._corpus is not None: return self._corpus
         import random
         rng = random.Random(3)
-        cases = []
+        cases = self.zero_mac_cases()
         frames = self.fixed_frames()
         for fi, fr in enumerate(frames):
             port = 1 + fi % 4
@@ -1131,6 +1145,27 @@ class C03(Check):
                     cases.append(c)
         self._corpus = cases
         return cases
+
+    def zero_mac_cases(self):
+        """an all-zero MAC in `a` against a wildcarded / zero / non-zero MAC in `b`, in all three tests (strict, ==, lenient) — the input on which the
+        address class's `zero == None` shows in the lenient test (found by thorough seed 7); minimised pairs + the pair as found"""
+        allw = mkwild(FLAG_FIELDS, 32, 32)
+        def rec(spec):          # spec: {field: value} specified, everything else wildcarded
+            r = [mkwild([f for f in FLAG_FIELDS if f not in spec], 32, 32)] + [0] * 12
+            for f, v in spec.items(): r[f] = v
+            return r
+        prs = []
+        for f in (DL_SRC, DL_DST):
+            for av in (0, 1, 0x010000000000):
+                for bspec in ({}, {f: 0}, {f: 1}, {IN_PORT: 1}):
+                    prs.append({"a": {"w": pack_rec(rec({f: av})).hex()}, "b": {"w": pack_rec(rec(bspec)).hex()}})
+        prs.append({"a": {"w": pack_rec(rec({DL_SRC: 0, DL_DST: 0})).hex()}, "b": {"w": pack_rec(rec({})).hex()}})
+        prs.append({"a": {"w": pack_rec(rec({DL_SRC: 0, DL_DST: 0})).hex()}, "b": {"w": pack_rec(rec({DL_SRC: 0})).hex()}})
+        prs.append({"a": {"w": pack_rec(rec({DL_SRC: 0, DL_DST: 2})).hex()}, "b": {"w": pack_rec(rec({})).hex()}})
+        prs.append({"a": {"w": "0039edb70001000000000104000000000000000007000000200000000aa809040a09090200008000"},
+                    "b": {"w": "000808280001000000000104000000000001000007000800200000000aa809040a09090200008000"}})
+        loc = [{"a": {"loc": unpack_rec(bytes.fromhex(p["a"]["w"]))}, "b": {"loc": unpack_rec(bytes.fromhex(p["b"]["w"]))}} for p in prs]
+        return [{"kind": "subsume", "pairs": prs, "tag": "zero MAC vs wildcarded MAC"}, {"kind": "subsume", "pairs": loc, "tag": "zero MAC vs wildcarded MAC (local)"}]
 
     def witnesses(self):
         out = []
